@@ -79,7 +79,7 @@ def gen_calls(rng, ds, ncalls):
     for _ in range(ncalls):
         which = rng.choice(["baseline", "reporting"])
         cut = rng.choice(cuts)
-        md = rng.choice([None, 1, 30, 365, 400, max(1, sp // 2), max(1, sp // 3), sp, 2, 3])
+        md = rng.choice([None, 1, 30, 365, 400, max(1, sp // 2), max(1, sp // 3), sp, 2, 3, 0, 0])
         other = None
         if md is None and rng.random() < 0.6:
             other = rng.choice(cuts)
